@@ -18,6 +18,7 @@ import Mathlib.Algebra.Order.Field.Rat
 import Mathlib.Tactic.NormNum
 
 set_option linter.unusedSectionVars false
+set_option linter.unusedSimpArgs false
 
 namespace OQuPyVerif.Props.C09
 open OQuPyVerif.FloatModel OQuPyVerif.MeanField OQuPyVerif.Generated.MeanFieldTimes
@@ -232,6 +233,39 @@ theorem ham_args_linearised (cast : Rat → K) (s dt : Rat) (n : Int) (a d : K) 
           a + d * cast (fsub (fadd (gridT s dt n) (fdiv dt 4)) (gridT s dt n))),
        (fadd (gridT s dt n) (fdiv (fmul dt 3) 4),
           a + d * cast (fsub (fadd (gridT s dt n) (fdiv (fmul dt 3) 4)) (gridT s dt n)))] := rfl
+
+/-- Inside one Liouvillian evaluation `liouvillian(t0, t, …)` of a `TimeDependentSystemWithField`
+    the Hamiltonian, the Lindblad rates and the Lindblad operators are all evaluated at the current
+    time `t` (never at the linearisation reference `t0`) — exactly as a plain `TimeDependentSystem`
+    evaluates them; so a sub-system that ignores the field has the plain system's Liouvillian, also
+    with time dependent dissipators. -/
+theorem plain_dissipator_times (t0 t : Rat) :
+    tdsf_ham_time t0 t = tds_ham_time t ∧ tdsf_gamma_time t0 t = tds_gamma_time t ∧
+    tdsf_lop_time t0 t = tds_lop_time t ∧
+    tds_ham_time t = t ∧ tds_gamma_time t = t ∧ tds_lop_time t = t :=
+  ⟨rfl, rfl, rfl, rfl, rfl, rfl⟩
+
+/-- … hence in the two sampled half-step Liouvillians of step `n` the rates and operators are taken
+    at `t_n ⊕ dt/4` and `t_n ⊕ 3dt/4`, the plain system's sample times. -/
+theorem diss_args_current_time (s dt : Rat) (n : Int) :
+    dissArgs s dt n =
+      [(fadd (gridT s dt n) (fdiv dt 4), fadd (gridT s dt n) (fdiv dt 4)),
+       (fadd (gridT s dt n) (fdiv (fmul dt 3) 4), fadd (gridT s dt n) (fdiv (fmul dt 3) 4))] ∧
+    (dissArgs s dt n).map (fun p => (p.1, p.1, p.2)) = plainArgs s dt n :=
+  ⟨rfl, rfl⟩
+
+/-- The methods the property equates build their system propagators with the same DEFAULT
+    settings: `subdiv_limit` (`none` would select two-point sampling instead of adaptive
+    integration of the Liouvillian) and `liouvillian_epsrel` of `compute_dynamics_with_field` and of
+    `compute_dynamics` equal those of `TempoParameters` (used by `MeanFieldTempo` and `Tempo`), and
+    integration is the default. -/
+theorem defaults_agree :
+    cdwf_default_subdiv_limit = tp_default_subdiv_limit ∧
+    cd_default_subdiv_limit = tp_default_subdiv_limit ∧
+    cdwf_default_liouvillian_epsrel = tp_default_liouvillian_epsrel ∧
+    cd_default_liouvillian_epsrel = tp_default_liouvillian_epsrel ∧
+    tp_default_subdiv_limit.isSome = true ∧ propagator_settings_passthrough_checked = true :=
+  ⟨rfl, rfl, rfl, rfl, rfl, rfl⟩
 
 /-- also when the Liouvillian is integrated, the linearisation starts at `t_n` -/
 theorem int_linearised_from_step_start (s dt : Rat) (n : Int) :
